@@ -19,7 +19,7 @@ def u64be (n : Nat) : Bytes :=
 
 def pad (msg : Bytes) : Bytes :=
   let l := msg.length
-  let k := (55 - l % 64 + 64) % 64
+  let k := (119 - l % 64) % 64
   msg ++ [0x80] ++ List.replicate k 0 ++ u64be (l * 8)
 
 structure St where
